@@ -23,6 +23,19 @@ pub struct Args {
     pub rest: Vec<String>,
 }
 
+static JOURNAL: std::sync::OnceLock<std::path::PathBuf> = std::sync::OnceLock::new();
+
+/// Note which case lines the real code is about to run (`<out>/journal.txt`, rewritten each time). If the
+/// engine process dies while running them (abort on allocation failure, stack overflow, kill), `check` reads
+/// the journal, replays each noted case alone, and reports the one that kills the engine again as the failing input.
+pub fn journal<S: AsRef<str>>(lines: &[S]) {
+    if let Some(p) = JOURNAL.get() {
+        let mut t = String::new();
+        for l in lines { t.push_str(l.as_ref()); t.push('\n'); }
+        let _ = std::fs::write(p, t);
+    }
+}
+
 pub fn parse_args() -> Args {
     let mut seed = std::env::var("VERIF_SEED").ok().and_then(|s| s.parse().ok()).unwrap_or(1u64);
     let mut thorough = std::env::var("VERIF_TIER").map(|t| t == "thorough").unwrap_or(false);
@@ -39,6 +52,8 @@ pub fn parse_args() -> Args {
             _ => rest.push(a),
         }
     }
+    let _ = std::fs::create_dir_all(&out);
+    let _ = JOURNAL.set(out.join("journal.txt"));
     Args { seed, thorough, out, replay, rest }
 }
 
